@@ -19,7 +19,7 @@ CLAIMS = {
     "C03": ("exploration",
             "explicit-state BFS over wallet histories with guarded operations under 5 passphrase classes; in-package secret-field scan in every locked state",
             "seqx",
-            "Every history up to depth 5/6 over create/import/delete/export/passphrase changes/lock/unlock/restart called with current, wrong, superseded, public and ill-formed passphrases; success iff the reference says the passphrase is the current private one; in every state all guarded operations are additionally probed with 5 wrong-passphrase classes; while locked no keystore is unlocked, nothing signs and no working secret (master key, crypto key, private scalars, passphrase hash) is in memory; unlocking is all-or-nothing; superseded passphrases stay dead after restart.",
+            "Every history up to depth 5/6 over create/import/delete/export/passphrase changes/lock/unlock/restart called with current, wrong, superseded, public and ill-formed passphrases; success iff the reference says the passphrase is the current private one; in every state all guarded operations are additionally probed with 5 wrong-passphrase classes; while locked no keystore is unlocked, nothing signs and no working secret (master key, crypto key, private scalars, passphrase hash) is in memory; unlocking is all-or-nothing; superseded passphrases stay dead after restart. Every successful change of the private passphrase on a wallet with two or more keystores is repeated (fresh instance, replayed prefix) once per storage event of that operation with the event failing: afterwards exactly one of the two passphrases unlocks, it unlocks and exports every keystore, the other none - in the running instance and after restart.",
             "a non-zero secret field is a violation only if it is a working secret (DESIGN §C03); scrypt N=16",
             "DESIGN.md §C03"),
     "C04": ("exploration",
@@ -37,7 +37,7 @@ CLAIMS = {
     "C10": ("fault_enumeration",
             "exhaustive enumeration of interruption points x {graceful stop, crash} x synthesised durable (torn) states x resume plans on the real plotter",
             "seqx",
-            "For every window plan, a probe run lists the H2 hook points of both passes; the plot is interrupted at every point gracefully (StopPlot, made deterministic inside the hook) and abruptly (plot goroutine abandoned); for crashes every durable state is synthesised from the last all-synced snapshot and the unsynced units (16/64-byte data blocks, atomic 8-byte checkpoint, removal of map A): all subsets when <=10 units, else prefixes/suffixes/singles/all-but-one. Each state is reopened (never falsely plotted/pre-plotted), checked for progress running ahead of durable data, and resumed under 3-5 resume plans to completion inside a livelock horizon; the resumed table must be byte-identical to the uninterrupted one. Thorough: bl 7/8/10, more plans, second interruption at the first 14 points of the resumed run.",
+            "For every window plan, a probe run lists the H2 hook points of both passes; the plot is interrupted at every point gracefully (StopPlot, made deterministic inside the hook) and abruptly (plot goroutine abandoned); for crashes every durable state is synthesised from the last all-synced snapshot and the unsynced units (16/64-byte data blocks, atomic 8-byte checkpoint, removal of map A): all subsets when <=10 units, else prefixes/suffixes/singles/all-but-one. Each state is reopened (never falsely plotted/pre-plotted), checked for progress running ahead of durable data, and resumed under 3-5 resume plans to completion inside a livelock horizon; the resumed table must be byte-identical to the uninterrupted one. At every point right before a window flush (A.computed / B.computed) the run is also continued with the file system refusing to grow the plot file - at once, and 5 bytes into the flush (RLIMIT_FSIZE of the single-job shard process) - and the state left behind is judged the same way. Thorough: bl 7/8/10, more plans, second interruption at the first 14 points of the resumed run.",
             "a synced WriteAt is durable; block granularity finer than real sectors (superset of torn states); bit length 8 only in the quick tier",
             "DESIGN.md §C10"),
     "C16": ("exploration",
@@ -61,14 +61,14 @@ CLAIMS = {
     "C09": ("model_checking",
             "explicit-state search over the real SpaceKeeper under a quiescence-based controlled scheduler (plotter gates H3, fake plot database); all action orders with canonical-state pruning",
             "qsched",
-            "Real capacity.SpaceKeeper with 1-2 (thorough 3) workspaces in registered/ready initial states and a fake plot database; actions = plot/mine/stop/remove/delete per workspace and bulk forms (operation budget 2-3 quick / 3-4 thorough), release of each of the five plotter gates, plot completion/abort; every order explored (BFS, canonical state incl. queue, popped item, channel content, gates, pending calls, sticky-stop monitor). In every quiescent state: exactly-one-state and index consistency, at most one plotting, the 16 flag filters agree across WorkSpaceIDs/WorkSpaceInfos/states, GetProofs(mining) offers exactly the used mining spaces; every state change is a documented edge for the action taken; refused remove/delete change nothing; a stopped space does not enter plotting/mining (nor complete its plot) until asked again. Open findings: stop does not cancel outstanding requests (5 fingerprints).",
+            "Real capacity.SpaceKeeper with 1-2 (thorough 3) workspaces in registered/ready initial states and a fake plot database; actions = plot/mine/stop/remove/delete per workspace and bulk forms (operation budget 2-3 quick / 3-4 thorough; one scenario of repeated plot/mine/stop requests for a single space with budget 4/5), release of each of the six plotter gates, plot completion/abort; every order explored (BFS, canonical state incl. queue, popped item, channel content, gates, pending calls, sticky-stop monitor). In every quiescent state: exactly-one-state and index consistency, at most one plotting, the 16 flag filters agree across WorkSpaceIDs/WorkSpaceInfos/states, GetProofs(mining) offers exactly the used mining spaces; every state change is a documented edge for the action taken; refused remove/delete change nothing; a stopped space does not enter plotting/mining (nor complete its plot) until asked again. Open findings: stop does not cancel outstanding requests (5 fingerprints).",
             "API bodies are atomic under stateLock and the plotter's steps 1/3 hold it, so gate granularity covers every order observable through states; unsynchronised accesses between gates are not enumerated; skchia keeper (same plotter code) is not driven separately",
             "DESIGN.md §C09"),
     "C13": ("model_checking",
             "explicit-state search over the real SpaceKeeper under the quiescence scheduler with small request-channel capacities; deadlock = pending call after drain, decided from goroutine wait reasons",
             "qsched",
-            "As C09 with a request channel of capacity 0 and 1 (thorough 2 and 3 workspaces), up to 2 calls in flight, keeper.Stop() at any moment as an action; every terminal execution is drained (Stop issued, gates released, running plot completed): any call or Stop that has not returned is a deadlock; panics in calls are violations. Open findings: PlotWS/MineWS send on the full channel while holding the state lock (2 fingerprints).",
-            "capacity 0-2 stands for 1024 (a scripted confirmation at the real constant is listed in DESIGN); Go's random select between quit and a ready request is handled by replay retries",
+            "As C09 with a request channel of capacity 0 and 1 (thorough 2 and 3 workspaces), up to 2 calls in flight, keeper.Stop() at any moment as an action; every terminal execution is drained (Stop issued, gates released, running plot completed): any call or Stop that has not returned is a deadlock; panics in calls or in the plotter (process death) are violations. Scenarios lockgates-*: the keeper's sync import is replaced by a shim whose RWMutex acquisitions are scheduling points, so other calls and plotter steps are ordered between the lock scopes of one call (bulk forms included; budget 2 quick / 3 thorough). Thorough adds a scripted history at the production channel capacity (1 025 requests). Open findings: PlotWS/MineWS send on the full channel while holding the state lock (2 fingerprints). Fixed finding: plotter popped from a queue emptied by a concurrent stop (panic).",
+            "capacity 0-2 stands for 1024 in the exhaustive part; Go's random select between quit and a ready request is handled by replay retries; unsynchronised accesses that are not lock acquisitions or plotter gates are not scheduling points",
             "DESIGN.md §C13"),
     "C15": ("exploration",
             "bounded-exhaustive enumeration of existing-space multisets x configuration requests on the real keeper over real (header-only) plot files",
